@@ -766,4 +766,26 @@ example :
     s.poolLive = true ∧ s.fdCloses = [0] ∧ s.sq = [.op 0, .cancel 0, .close 0] := by
   decide
 
+/-! ### Ring drop with a kernel submission thread -/
+
+/-- **Everything queued or in flight when a kernel-thread Ring is dropped is released by that
+drop** (repair c481592: the drop lets the thread take the queue before it cancels and collects):
+for every set of abandoned operations still queued, already started, or already completed. -/
+theorem C12_kernel_thread_ring_drop (q f p : List Nat) :
+    let s := KtDrop.run { queued := q, inflight := f, posted := p } ktDropFixed
+    s.released = p ++ f ++ q ∧ s.queued = [] ∧ s.inflight = [] ∧ s.posted = [] := by
+  simp [KtDrop.run, ktDropFixed, KtDrop.step, List.append_assoc]
+
+/-- The order before the repair, with a thread slower than the drop: an operation that is still
+queued at the cancellation sweep starts afterwards; its completion is posted when the Ring is gone
+and its state is never released: exactly the queued ones are left posted and unreleased. -/
+theorem C12_kernel_thread_ring_drop_old_order_leaks (q f p : List Nat) :
+    let s := KtDrop.run { queued := q, inflight := f, posted := p } ktDropOld
+    s.released = p ++ f ∧ s.posted = q ∧ s.gone = true := by
+  simp [KtDrop.run, ktDropOld, KtDrop.step]
+
+example : (KtDrop.run { queued := [0] } ktDropFixed).released = [0] ∧
+    (KtDrop.run { queued := [0] } ktDropOld).released = [] ∧
+    (KtDrop.run { queued := [0] } ktDropOld).posted = [0] := by decide
+
 end A10.Teardown
